@@ -351,7 +351,10 @@ func c01Run(c *mc.Ctx) {
 // c01SweepBitmap is pattern p of the length sweep at length l; every (l,p)
 // gives different words, so a buffer reused between calls shows.
 func c01SweepBitmap(l, p int) []uint64 {
-	w := make([]uint64, l)
+	w := gen.DirtyU64(nil, l+3)[:l] // l words, 3 more of spare capacity holding a canary
+	for i := range w {
+		w[i] = 0
+	}
 	for i := range w {
 		switch p {
 		case 0:
